@@ -1,8 +1,21 @@
 #!/bin/sh
-# Builds the fact extractors from files on disk only (offline).
+# Builds the fact extractors from files on disk only (offline) and warms the dependency build
+# that the MIR driver needs. Nothing here touches the network.
 set -e
 cd "$(dirname "$0")"
 export CARGO_NET_OFFLINE=true
-(cd tools/srcfacts && cargo build --offline 2>&1 | tail -3)
+(cd tools/srcfacts && cargo build --offline 2>&1 | tail -2)
 test -x tools/srcfacts/target/debug/srcfacts
+(cd tools/mirfacts && cargo +nightly build --offline 2>&1 | tail -2)
+test -x tools/mirfacts/target/debug/mirfacts
+chmod +x tools/shim/rustc check
+# warm .work/target (dependencies of /repo checked once under the driver) and the fact cache
+python3 - <<'PY'
+import sys
+sys.path.insert(0, ".")
+from vlib import core, mir
+core.get_repo()
+mir.get_mir()
+print("facts ok")
+PY
 echo "setup ok"
